@@ -520,3 +520,59 @@ func TestVerifC07Files(t *testing.T) {
 	}
 	en.Done(true)
 }
+
+// TestVerifC07NameCollision: "its full name is unique" when two suites' names nest: suite "Acme" with test
+// "trailers/in-body" and suite "Acme/trailers" with test "in-body" spell the same full name for the same config case
+// (every axis pinned by both suites). The library must not silently keep one of them: it reports the clash, and the
+// answer does not depend on the order the suites are visited in. Without the clash both permutations exist.
+func TestVerifC07NameCollision(t *testing.T) {
+	en := verifkit.NewEnum(t, "C07NameCollision")
+	type row struct {
+		Outer, OuterTest, Inner, InnerTest string
+		Collide                            bool
+	}
+	rows := []row{
+		{"Acme", "trailers/in-body", "Acme/trailers", "in-body", true},
+		{"Acme", "a/b/c", "Acme/a/b", "c", true},
+		{"Acme", "trailers/in-body", "Acme/trailers", "in-header", false},
+		{"Acme", "x", "Acme/trailers", "x", false},
+	}
+	cfg := []configCase{{Version: conformancev1.HTTPVersion_HTTP_VERSION_1, Protocol: conformancev1.Protocol_PROTOCOL_CONNECT,
+		Codec: conformancev1.Codec_CODEC_PROTO, Compression: conformancev1.Compression_COMPRESSION_IDENTITY, StreamType: conformancev1.StreamType_STREAM_TYPE_UNARY, UseTLS: true}}
+	mk := func(name, test string) *conformancev1.TestSuite {
+		return &conformancev1.TestSuite{Name: name, ReliesOnTls: true, // (every axis pinned: the full name is suite name + test name)
+			RelevantProtocols: []conformancev1.Protocol{conformancev1.Protocol_PROTOCOL_CONNECT}, RelevantHttpVersions: []conformancev1.HTTPVersion{conformancev1.HTTPVersion_HTTP_VERSION_1},
+			RelevantCodecs: []conformancev1.Codec{conformancev1.Codec_CODEC_PROTO}, RelevantCompressions: []conformancev1.Compression{conformancev1.Compression_COMPRESSION_IDENTITY},
+			TestCases: []*conformancev1.TestCase{{Request: &conformancev1.ClientCompatRequest{TestName: test, StreamType: conformancev1.StreamType_STREAM_TYPE_UNARY}}}}
+	}
+	for _, r := range rows {
+		var viol error
+		// (repeated: Go visits the suite map in a different order each time)
+		for rep := 0; rep < 40 && viol == nil; rep++ {
+			suites := map[string]*conformancev1.TestSuite{"outer.yaml": mk(r.Outer, r.OuterTest), "inner.yaml": mk(r.Inner, r.InnerTest)}
+			lib, err := newTestCaseLibrary(suites, cfg, conformancev1.TestSuite_TEST_MODE_UNSPECIFIED)
+			switch {
+			case r.Collide && err == nil:
+				viol = verifkit.Violf("name-collision-accepted", "suites %q (test %q) and %q (test %q) spell the same full name, but the library was built with %d permutation(s) %v: one definition was silently dropped", r.Outer, r.OuterTest, r.Inner, r.InnerTest, len(lib.testCases), vfKeys(lib.testCases))
+			case !r.Collide && err != nil:
+				viol = verifkit.Violf("name-collision-spurious", "suites %q (test %q) and %q (test %q) do not clash but: %v", r.Outer, r.OuterTest, r.Inner, r.InnerTest, err)
+			case !r.Collide && len(lib.testCases) != 2:
+				viol = verifkit.Violf("permutation-missing", "suites %q / %q: %d permutations %v, want 2", r.Outer, r.Inner, len(lib.testCases), vfKeys(lib.testCases))
+			}
+		}
+		en.Rec.Observe(r, []string{fmt.Sprintf("collide:%v", r.Collide)}, true)
+		if viol != nil && en.Fail(r, viol) {
+			break
+		}
+	}
+	en.Done(true)
+}
+
+func vfKeys(m map[string]*conformancev1.TestCase) []string {
+	var out []string
+	for k := range m {
+		out = append(out, k)
+	}
+	sort.Strings(out)
+	return out
+}
